@@ -396,6 +396,7 @@ async def observe(w, n, struct, rng, sections=None, nparts=None):
     obs["fields"] = fields_of(first[""]) if "" in first else []
     obs["fieldsNoWS"] = [[k, v.replace(" ", "")] for k, v in obs["fields"]]
     obs["leaves"] = leaves_of(first[""]) if "" in first else []
+    obs["_body"] = first.get("")      # kept for the harness only (never sent to TLC)
     return obs
 
 
@@ -437,6 +438,7 @@ async def run_cases(w, cases, seed, history=False):
     await w.cmd("A", "CREATE dst", settle=0)
     out = []
     kept = []     # history: (seq number in src, base, how, case) of everything stored in src
+    in_src = []   # (seq number in src, record) for the partial fetch that names all messages at once
     for c in cases:
         data, struct = c["data"], c["struct"]
         sent = item(data)
@@ -471,6 +473,7 @@ async def run_cases(w, cases, seed, history=False):
             o = await observe(w, n, struct, rng, sections=c.get("sections"), nparts=c.get("nparts"))
             recs.append(dict(base, how=how, stored=True, copyof=0, **o))
             kept.append((n, base, how, c))
+            in_src.append((n, recs[-1]))
         if "copy" in c["ways"] and stored:
             how, n = stored[-1]
             r = await w.cmd("A", f"COPY {n} dst", settle=0)
@@ -484,6 +487,31 @@ async def run_cases(w, cases, seed, history=False):
                 out.append(dict(base, how="copy", stored=False, status=r.status,
                                 text=(r.tagged or {}).get("text", "")[:100], closed=bool(r.closed)))
         out.extend(recs)      # the records of one case are contiguous
+    if in_src:
+        # one FETCH naming every message of the folder with the same partial range: each message's
+        # answer must be the slice of its own BODY[] (what was asked for one message must not leak
+        # into the next); judged by the same clause as the single-message partials
+        await _reopen(w, "src")
+        box = w.sessions["A"].handler.mbox
+        if box is None or box.name != "src":
+            await w.cmd("A", "SELECT src", settle=0)
+        in_src = [(n, rec) for n, rec in in_src if rec.get("_body") is not None]
+        sizes = sorted(len(rec["_body"]) for _, rec in in_src) or [0]
+        med = sizes[len(sizes) // 2]
+        for o, c in ((0, max(8, med // 2)), (3, med + 17), (max(1, sizes[0] // 2), sizes[-1] + 5)):
+            r = await w.cmd("A", f"FETCH 1:* (BODY.PEEK[]<{o}.{c}>)", settle=0)
+            got = {}
+            for d in r.items:
+                if d["kind"] == "FETCH":
+                    got[d["n"]] = _lit(d, f"BODY[]<{o}>")
+            for n, rec in in_src:
+                e0 = [e for e in rec["secs"] if e["name"] == ""]
+                if not e0 or any(q["o"] == o for q in e0[0]["parts"]):
+                    continue
+                base_b = rec["_body"]
+                val = got.get(n)
+                e0[0]["parts"].append({"o": o, "c": c, "present": val is not None, "got": item(val or b""),
+                                       "ref": item(base_b[o:o + c]) if len(base_b) >= SMALL else item(b"")})
     if history and kept:
         # the same messages later in the life of the folder: every other message
         # is expunged, the management task packs the folder at its idle poll
